@@ -1,0 +1,13 @@
+//go:build verif
+
+package pebble
+
+// BytesPrefixRangeVerif re-exports bytesPrefixRange for the verification harness (add-only hook).
+// all = true stands for nil iterator options.
+func BytesPrefixRangeVerif(prefix, start []byte) (all bool, lo, hi []byte) {
+	r := bytesPrefixRange(prefix, start)
+	if r == nil {
+		return true, nil, nil
+	}
+	return false, r.LowerBound, r.UpperBound
+}
